@@ -3,7 +3,7 @@
    shapes — normal return, an HTTP protocol error (one of eight HttpProcessingError classes), or a
    question to the yarl oracle; an escaping foreign exception is not representable, and the harness
    checks on every generated input that the implementation's outcome is of the same shape. *)
-From AV Require Import Lib.Base Lib.BytesX Generated.HttpGen Model.Http Proofs.HttpLimits.
+From AV Require Import Lib.Base Lib.BytesX Generated.HttpGen Model.Http Proofs.HttpLimits Proofs.HttpTarget.
 Open Scope N_scope.
 
 (* Retained bytes: after ANY sequence of reads that has not been rejected, the parser holds at most
@@ -167,3 +167,38 @@ Theorem C10_resp_content_length_decimal : forall cfg s ls r, rstart_message cfg 
     end /\ has_header h_sec_websocket_key1 (rm_headers m) = false.
 Proof. exact rstart_message_cl. Qed.
 Print Assumptions C10_resp_content_length_decimal.
+
+(* ---- totality at the request target (round 4, seeded change C10-7) ---------------------------------------
+   An accepted head has passed check_target: a CONNECT authority, or a target that is neither origin-form nor the
+   OPTIONS asterisk, was put to the URL library (the oracle `o`: yarl is not modelled) and ACCEPTED by it.  So no
+   message leaves the parser whose URL raises when RequestHandler.start / BaseRequest.__init__ read it, outside
+   every try block; a target the library refuses is EInvalidUrl (InvalidURLError, a 400).  For every byte string
+   and every oracle.  The harness evaluates the same statement on the implementation (`urlexc` oracle) and supplies
+   yarl's verdicts to the model (correspondence request-parser-model). *)
+Theorem C10_accepted_target_validated : forall o lines m,
+  parse_request o lines = POk m ->
+  existsb target_forbidden (m_target m) = false /\
+  if list_eqb (m_method m) m_CONNECT then ask o true (m_target m) = Some true
+  else if starts_with [47] (m_target m) then True
+  else if list_eqb (m_target m) [42] && list_eqb (m_method m) m_OPTIONS then True
+  else ask o false (m_target m) = Some true.
+Proof. exact accepted_target_validated. Qed.
+Print Assumptions C10_accepted_target_validated.
+
+Theorem C10_started_message_target_validated : forall lim o s ls r,
+  start_message lim o s ls = POk r -> exists m, parse_request o (removelast ls) = POk m /\ target_validated o m.
+Proof. exact started_message_target_validated. Qed.
+Print Assumptions C10_started_message_target_validated.
+
+Theorem C10_connect_refused_not_accepted : forall o lines m,
+  parse_request o lines = POk m -> list_eqb (m_method m) m_CONNECT = true -> ask o true (m_target m) <> Some true -> False.
+Proof. exact connect_refused_not_accepted. Qed.
+Print Assumptions C10_connect_refused_not_accepted.
+
+(* `CONNECT h:443 HTTP/1.1` under the three possible answers: accepted / InvalidURLError / the model asks *)
+Example C10_connect_example :
+  (exists m, parse_request [(true, w_connect_target, true)] w_connect_lines = POk m /\ m_target m = w_connect_target) /\
+  parse_request [(true, w_connect_target, false)] w_connect_lines = PErr EInvalidUrl /\
+  parse_request [] w_connect_lines = PAsk true w_connect_target.
+Proof. exact connect_witness. Qed.
+Print Assumptions C10_connect_example.
